@@ -62,6 +62,11 @@ def run(ctx) -> None:
     # a trough that holds exactly v_stock / v_diluent above its minimum is sufficient: the limit guards are non-strict
     for kind in ("add", "remove"):
         ctx.reuse("C14.execute-steps", c02.guard, kind)
+    # every planned volume up to the worklist's limit passes the record validator, on both devices, for every plan size (R <= 16)
+    from . import c03
+
+    ctx.reuse("C14.execute-steps", c03.step_guard_validator)
+    ctx.reuse("C14.execute-steps", c08.regex_agreement)
 
 
 def _init(ctx, rule):
@@ -529,6 +534,15 @@ def to_worklist(ctx) -> None:
                               "a serial transfer does not take (target column, volumes) of the current column's list and move them from column `col` to that target", where=w)
             else:
                 seen.add("mix")
+                # the mixing volume never exceeds what the column holds: vmax[col] * mix_volume (capped by the worklist's limit),
+                # not rounded - rounding to whole microlitres can go up (100.75 -> 101 uL out of a 100.75 uL well)
+                vt = fv.res.resolve(vol, cs.node) if vol is not None else None
+                if vt is not None:
+                    rounded = [call_fname(x) for x in ast.walk(vt) if isinstance(x, ast.Call) and not is_sym(x) and call_fname(x) in ("round", "around", "round_", "ceil", "rint")
+                               and any(isinstance(y, ast.Name) and y.id == "mix_volume" for y in ast.walk(x))]
+                    ctx.rep.check(not rounded, rule, f"{f.qualname}/mix-volume[{stmt_key(cs.call)[:30]}]", "the mixing volume is at most vmax[col] * mix_volume",
+                                  f"the mixing volume `{show(vt)[:70]}` is rounded ({rounded[0] if rounded else ''}): it can exceed the content of the column (non-integer vmax, mix_volume near 1) and the "
+                                  "mixing step is refused with VolumeUnderflowError", where=w)
         elif is_name(d_lab, "destination_plate"):
             seen.add("destination")
     ctx.rep.check({"stock", "diluent", "serial"} <= seen, rule, f"{f.qualname}/all-kinds", "stock, diluent and serial transfers are all executed", f"only {sorted(seen)} transfer kinds found in to_worklist", where=f.where())
